@@ -35,6 +35,7 @@ type backendBehavior struct {
 	OnJoined      func(bc *backendConn) // runs in the connection's script goroutine after JoinGame was sent
 	OnConfig      func(bc *backendConn) // runs in config phase before FinishedUpdate (1.20.2+)
 	OnLogin       func(bc *backendConn) // runs after ServerLogin was read, before LoginSuccess
+	OnPreJoin     func(bc *backendConn) // runs in play state right before JoinGame is sent (a modded server's handshake)
 }
 
 type backendModel struct {
@@ -306,6 +307,9 @@ func (bc *backendConn) run() {
 	if bc.beh.JoinDelay > 0 {
 		bc.b.w.r.Fault("backend_slow_join")
 		simrt.Sleep(bc.beh.JoinDelay, "backend.join-delay")
+	}
+	if bc.beh.OnPreJoin != nil {
+		bc.beh.OnPreJoin(bc)
 	}
 	if err := bc.send(joinGameFor(w.prot, bc.EntityID())); err != nil {
 		bc.noteEOF()
